@@ -2,6 +2,7 @@ package chk
 
 import (
 	"fmt"
+	"go/types"
 	"sort"
 	"strings"
 
@@ -265,7 +266,20 @@ func offsetTerms(v ssa.Value, sign int, plus, minus strset, depth int) {
 		offsetTerms(t.X, sign, plus, minus, depth+1)
 		return
 	}
-	if _, f, _ := loadedField(v); f != "" {
+	_, f, _ := loadedField(v)
+	if f == "" {
+		// a local that is also what the function stores into a field of the metadata: the offset by that field's name
+		if refs := v.Referrers(); refs != nil {
+			for _, r := range *refs {
+				if st, ok := r.(*ssa.Store); ok && st.Val == v {
+					if fa, ok := st.Addr.(*ssa.FieldAddr); ok && isPtrToNamed(fa.X.Type(), "Metadata") {
+						f = fieldName(fa.X.Type(), fa.Field)
+					}
+				}
+			}
+		}
+	}
+	if f != "" {
 		if sign > 0 {
 			plus.add(canonOffsetName(f))
 		} else {
@@ -305,7 +319,13 @@ func ruleSTLOffsetSymmetry(p *Prog, l *Ledger, tier string) {
 		// writer: the duration formatted for this timecode
 		wPlus, wMinus := strset{}, strset{}
 		found := false
-		for _, c := range callsTo(wr, "formatDurationSTLBytes") {
+		var fmtCalls []*ssa.Call
+		for _, h := range p.Helpers(wr) {
+			if fnPkg(h) == p.LibSSA && (h == wr || (h.Signature.Recv() != nil && wr.Signature.Recv() != nil && types.Identical(h.Signature.Recv().Type(), wr.Signature.Recv().Type()))) {
+				fmtCalls = append(fmtCalls, callsTo(h, "formatDurationSTLBytes")...)
+			}
+		}
+		for _, c := range fmtCalls {
 			tp, tm := strset{}, strset{}
 			offsetTerms(c.Call.Args[0], 1, tp, tm, 0)
 			if tp[strings.ToLower(pair[1])] {
@@ -326,6 +346,26 @@ func ruleSTLOffsetSymmetry(p *Prog, l *Ledger, tier string) {
 		n++
 		delete(rPlus, strings.ToLower(pair[1]))
 		delete(wPlus, strings.ToLower(pair[1]))
+		// (round 16) the offset recorded for the caller is the offset applied: the reader does not assign the GSI
+		// field it subtracts (an "ignore" option that zeroes the field after the metadata have been filled leaves
+		// the two apart, and the writer adds back what the reader never took off)
+		if pair[0] == "StartAt" {
+			for _, b := range rd.Blocks {
+				for _, ins := range b.Instrs {
+					st, ok := ins.(*ssa.Store)
+					if !ok {
+						continue
+					}
+					fa, ok := st.Addr.(*ssa.FieldAddr)
+					if !ok || !isPtrToNamed(fa.X.Type(), "gsiBlock") {
+						continue
+					}
+					if f := fieldName(fa.X.Type(), fa.Field); rMinus[canonOffsetName(f)] {
+						l.Fail(rule, "ReadFromSTL", rule+"|assigned|"+f, p.Pos(st.Pos()), "ReadFromSTL assigns gsiBlock."+f+", the offset it subtracts from every timecode, after the GSI block has been parsed: what is recorded in the metadata (and written back by the writer) and what is taken off the cues are no longer one value on every path")
+					}
+				}
+			}
+		}
 		// reader subtracts X ⇔ writer adds X; reader adds X ⇔ writer subtracts X
 		a, b := strings.Join(rMinus.sorted(), ","), strings.Join(wPlus.sorted(), ",")
 		c, d := strings.Join(rPlus.sorted(), ","), strings.Join(wMinus.sorted(), ",")
